@@ -31,6 +31,7 @@ from hypothesis.stateful import RuleBasedStateMachine, invariant, precondition, 
 
 from vf.common import call_sut, digest, shard_seed
 from vf.harness import cli, tree
+from vf.harness.probe import AnalysisProbe
 
 ID = "C09"
 LEVEL = "exploration"
@@ -80,6 +81,7 @@ class World:
         self.files = {}  # path -> bytes
         self.option = []
         self.cache = None  # None (no cache) | {"version": str, "entries": {path: md5}}
+        self.probe_unusable = False
         self.scans = 0
         self.changed_since_scan = False
         self.nontrivial = False
@@ -217,18 +219,10 @@ class World:
         from codelimit.common.report.Report import Report
         from codelimit.common.report.ReportWriter import ReportWriter
 
-        seen = []
-        orig = Scanner._analyze_file
-
-        def wrapper(path, rel_path, checksum, lexer):
-            seen.append(str(rel_path))
-            return orig(path, rel_path, checksum, lexer)
-
-        Scanner._analyze_file = wrapper
-        try:
+        probe = AnalysisProbe(self.root, PATHS)
+        with probe:
             res = cli.run_scan(self.root, ".", excludes=self.option)
-        finally:
-            Scanner._analyze_file = orig
+        seen = probe.seen
         self.scans += 1
         if self.scans >= 2 and self.changed_since_scan:
             self.nontrivial = True
@@ -283,9 +277,11 @@ class World:
             md5 = hashlib.md5(self.files[p]).hexdigest()
             if self.cache is None or self.cache["version"] != written["version"] or self.cache["entries"].get(p) != md5:
                 must.add(p)
-        if not must <= set(seen):
+        if not probe.usable(len(must)):
+            self.probe_unusable = True  # the observation point is gone: only the report comparison above decides
+        elif not must <= set(seen):
             return ("stale-entry-reused", f"files {sorted(must - set(seen))} changed (or the cache was not trustworthy) but were not re-analysed; analysed {sorted(seen)}")
-        if len(seen) != len(set(seen)) or not set(seen) <= set(fresh_files):
+        if probe.usable(len(must)) and (len(seen) != len(set(seen)) or not set(seen) <= set(fresh_files)):
             return ("analysed-unexpected-files", f"analysed {sorted(seen)}, files in report {sorted(fresh_files)}")
         self.cache = {"version": written["version"], "entries": {p: e["checksum"] for p, e in written["codebase"]["files"].items()}}
         for name, fn in (("report", cli.run_report), ("findings", cli.run_findings)):
@@ -487,6 +483,7 @@ def make_machine(col):
                 for k in kinds:
                     col.label(f"op:{k}")
                 col.label(f"scans:{min(self.world.scans, 5)}")
+                col.label("reanalysis-observation-unavailable" if self.world.probe_unusable else "reanalysis-observed")
                 if self.world.nontrivial:
                     col.nontrivial.add(digest(case))
                     col.sample(case)
